@@ -335,7 +335,7 @@ def run(ctx):
         nrec = len(recs)
         accepted = rejected_abn = deviations = 0
         if nrec:
-            tres = ctx.tlc("RenderTrace", "RenderTrace.cfg", workers=16, env={"TRACE_FILE": rec}, timeout=6000, heap_gb=14)
+            tres = ctx.tlc_trace("RenderTrace", "RenderTrace.cfg", rec, workers=16, timeout=6000, heap_gb=14)
             ok, bad = set(), {}
             with open(tres.out_path, errors="replace") as f:
                 for l in f:
